@@ -1,4 +1,5 @@
 import CoupeModel.Model.Random
+import CoupeModel.Proofs.Random
 import CoupeModel.Props.C10
 import CoupeModel.Props.C12
 import CoupeModel.Props.C13
@@ -44,14 +45,13 @@ theorem length_ok (p : List Nat) (ws : List Int) (tol : Int) (ids : List Nat)
     (hnn : ∀ w ∈ ws, 0 ≤ w) (h : run {} p ws tol = .ok ids) : ids.length = ws.length := by
   by_cases hne : ws = []
   · subst hne
-    by_cases hp : p = []
-    · subst hp
+    by_cases hl : ([] : List Int).length = p.length
+    · have hp : p = [] := List.eq_nil_of_length_eq_zero hl.symm
+      subst hp
       have : ids = [] := by simpa [run] using h.symm
       simp [this]
-    · have : ([] : List Int).length ≠ p.length := by
-        intro hl
-        exact hp (List.eq_nil_of_length_eq_zero hl.symm)
-      simp [run, this] at h
+    · rw [ckk_len_mismatch p [] tol hl] at h
+      cases h
   · exact (ckk_sound p ws tol ids hnn hne h).1
 
 /-- On `Ok` every id is below 2. -/
@@ -67,11 +67,13 @@ theorem total (p : List Nat) (ws : List Int) (tol : Int) (hlen : ws.length = p.l
     (∃ ids, run {} p ws tol = .ok ids) ∨ run {} p ws tol = .notFound := by
   have hab := ckk_total p ws tol
   have hlm : run {} p ws tol ≠ .lenMismatch := by
-    unfold run
-    rw [if_neg (by omega)]
-    split
-    · simp
-    · split <;> simp
+    by_cases hne : ws = []
+    · subst hne
+      have hp : p = [] := List.eq_nil_of_length_eq_zero hlen.symm
+      subst hp
+      simp [run]
+    · rw [run_eq_of_len hlen hne]
+      split <;> simp
   cases hr : run {} p ws tol with
   | ok ids => exact .inl ⟨ids, rfl⟩
   | notFound => exact .inr rfl
@@ -141,7 +143,7 @@ theorem ids_lt_any_sort (sort : Row → Row) (hsort : SortOk sort) (p : List Nat
 /-- Non-vacuity: the trivial cases of defect D5 (one element; one part) are written. -/
 example : run [9] [7] 5 = .ok [0] := by decide
 example : run [9, 9, 9] [4, 5, 6] 1 = .ok [0, 0, 0] := by decide
-example : run [9, 9, 9, 9] [3, 5, 3, 9] 3 = .ok [2, 1, 2, 0] := by decide
+example : run [9, 9, 9, 9] [3, 5, 3, 9] 3 = .ok [1, 2, 1, 0] := by decide
 
 end Kk
 
@@ -207,44 +209,9 @@ below `k` whenever `k > 0`. -/
 namespace Random
 open Coupe.Random
 
-theorem fill_length {σ : Type} (g : Gen σ) (k : Nat) :
-    ∀ (p : List Nat) (s : σ) (ids : List Nat), fill g k p s = some ids → ids.length = p.length
-  | [], _, ids, h => by
-    have : ids = [] := by simpa [fill] using h.symm
-    simp [this]
-  | _ :: p, s, ids, h => by
-    simp only [fill] at h
-    split at h
-    · cases h
-    · next v s' _ =>
-      split at h
-      · cases h
-      · next rest hrest =>
-        have : ids = v :: rest := by simpa using h.symm
-        subst this
-        simp [fill_length g k p s' rest hrest]
-
 theorem length_ok {σ : Type} (g : Gen σ) (k : Nat) (p : List Nat) (s : σ) (ids : List Nat)
     (h : run g k p s = some ids) : ids.length = p.length :=
   fill_length g k p s ids h
-
-theorem fill_lt {σ : Type} (g : Gen σ) (hg : Lawful g) (k : Nat) (hk : 0 < k) :
-    ∀ (p : List Nat) (s : σ) (ids : List Nat), fill g k p s = some ids → ∀ i ∈ ids, i < k
-  | [], _, ids, h => by
-    have : ids = [] := by simpa [fill] using h.symm
-    simp [this]
-  | _ :: p, s, ids, h => by
-    obtain ⟨v, s', hn, hv⟩ := hg k s hk
-    simp only [fill, hn] at h
-    split at h
-    · cases h
-    · next rest hrest =>
-      have : ids = v :: rest := by simpa using h.symm
-      subst this
-      intro i hi
-      rcases List.mem_cons.mp hi with rfl | hi
-      · exact hv
-      · exact fill_lt g hg k hk p s' rest hrest i hi
 
 /-- Every id is below the part count, whatever lawful generator and state. -/
 theorem ids_lt {σ : Type} (g : Gen σ) (hg : Lawful g) (k : Nat) (hk : 1 ≤ k) (p : List Nat) (s : σ)
@@ -265,11 +232,12 @@ theorem total {σ : Type} (g : Gen σ) (hg : Lawful g) (k : Nat) (hk : 1 ≤ k) 
 /-- The driver's stand-in generator is lawful (non-vacuity of `Lawful`). -/
 theorem lcg_lawful : Lawful lcg := by
   intro k s hk
-  refine ⟨_, _, ?_, Nat.mod_lt _ hk⟩
+  refine ⟨((s * 6364136223846793005 + 1442695040888963407) % 2 ^ 64 / 2 ^ 33) % k,
+    (s * 6364136223846793005 + 1442695040888963407) % 2 ^ 64, ?_, Nat.mod_lt _ hk⟩
   simp only [lcg]
   rw [if_neg (by omega)]
 
-example : run lcg 3 [9, 9, 9, 9] 1 = some [0, 1, 1, 0] := by decide
+example : run lcg 3 [9, 9, 9, 9] 1 = some [2, 0, 0, 0] := by decide
 
 end Random
 
@@ -291,9 +259,7 @@ end Coupe.C01
 #print axioms Coupe.C01.Grid3.length_ok
 #print axioms Coupe.C01.Grid3.ids_lt
 #print axioms Coupe.C01.Grid3.total
-#print axioms Coupe.C01.Random.fill_length
 #print axioms Coupe.C01.Random.length_ok
-#print axioms Coupe.C01.Random.fill_lt
 #print axioms Coupe.C01.Random.ids_lt
 #print axioms Coupe.C01.Random.total
 #print axioms Coupe.C01.Random.lcg_lawful
